@@ -703,6 +703,20 @@ impl Database {
         self.shared.next_index_id.fetch_add(1, Ordering::AcqRel)
     }
 
+    /// verification hook (add-only): read the process-global row-id counter (`next_row_id`), which
+    /// `Database::open` restarts at 1.
+    #[cfg(kahflane_turdb_verif)]
+    pub fn verif_next_row_id(&self) -> u64 {
+        self.shared.next_row_id.load(std::sync::atomic::Ordering::Relaxed)
+    }
+
+    /// verification hook (add-only): set the row-id counter, so that a close/reopen history can be
+    /// continued with the row ids it would have had without the restart.
+    #[cfg(kahflane_turdb_verif)]
+    pub fn verif_set_next_row_id(&self, v: u64) {
+        self.shared.next_row_id.store(v, std::sync::atomic::Ordering::Relaxed)
+    }
+
     /// verification hook (add-only): exposes the crate-private OwnedValue -> index key glue.
     #[cfg(kahflane_turdb_verif)]
     pub fn verif_encode_value_as_key(value: &OwnedValue, buf: &mut Vec<u8>) {
